@@ -148,7 +148,7 @@ static int find_ancestor_in_list(char ** name_list)
     while (ppid != 0) {
         // Create the path to /proc/<ppid>/stat
         snprintf(stat_path, ST_PATH_SIZE_MAX, "/proc/%d/stat", ppid);
-        statf = fopen(stat_path, "r");
+        statf = fopen(stat_path, "re");
         if (statf == NULL) {
             return -1;
         }
